@@ -37,7 +37,7 @@ const (
 	fundOutputs    = 20
 	farFuture      = int64(4000000000)
 	seqNonFinal    = uint32(0xfffffffe)
-	worldCount     = 2
+	worldCount     = 3
 	regtestGenesisTime = int64(1296688602)
 	maxUint32Const = math.MaxUint32
 )
@@ -60,6 +60,15 @@ func (c *fakeClock) set(t int64) {
 	c.mu.Lock()
 	c.now = time.Unix(t, 0)
 	c.mu.Unlock()
+}
+
+// spacing is the block interval of a world.  World 2 mines four times faster
+// than its target so that the first two retargets raise the difficulty.
+func spacing(world int) int64 {
+	if world == 2 {
+		return 150
+	}
+	return worldSpacing
 }
 
 // makeParams returns a private deep copy of regtest-like parameters.  World 0
@@ -85,6 +94,16 @@ func makeParams(world int) *chaincfg.Params {
 	if world == 1 {
 		// like mainnet: UpdateBlockTime must not touch the difficulty bits
 		p.ReduceMinDifficulty = false
+	}
+	if world == 2 {
+		// testnet-style: retargeting every 10 blocks, minimum difficulty allowed 20 minutes
+		// after the tip; the chain's difficulty is above the minimum
+		p.PoWNoRetargeting = false
+		p.ReduceMinDifficulty = true
+		p.TargetTimePerBlock = 10 * time.Minute
+		p.TargetTimespan = 100 * time.Minute
+		p.RetargetAdjustmentFactor = 4
+		p.MinDiffReductionTime = 20 * time.Minute
 	}
 	return &p
 }
@@ -165,6 +184,7 @@ type world struct {
 	// hashes[h] is the main-chain block hash at height h, times[h] its timestamp.
 	hashes []chainhash.Hash
 	times  []int64
+	bits   []uint32
 }
 
 type chainInst struct {
@@ -221,7 +241,7 @@ func coinbaseScript(height int32, extra int64) []byte {
 // buildBlock assembles and solves a block on top of prev (hash, height-1) with
 // the given non-coinbase transactions (none of which may carry witness data).
 func buildBlock(params *chaincfg.Params, prev chainhash.Hash, height int32, ts int64, extra int64,
-	txs []*wire.MsgTx, fees int64) *btcutil.Block {
+	txs []*wire.MsgTx, fees int64, bits uint32) *btcutil.Block {
 
 	cb := wire.NewMsgTx(1)
 	cb.AddTxIn(&wire.TxIn{
@@ -236,7 +256,7 @@ func buildBlock(params *chaincfg.Params, prev chainhash.Hash, height int32, ts i
 	var blk wire.MsgBlock
 	blk.Header = wire.BlockHeader{
 		Version: 0x20000000, PrevBlock: prev, MerkleRoot: blockchain.CalcMerkleRoot(utxs, false),
-		Timestamp: time.Unix(ts, 0), Bits: params.PowLimitBits,
+		Timestamp: time.Unix(ts, 0), Bits: bits,
 	}
 	for _, t := range all {
 		blk.AddTransaction(t)
@@ -331,6 +351,7 @@ func buildWorld(id int) (*world, error) {
 	}
 	w.hashes = []chainhash.Hash{*ci.params.GenesisHash}
 	w.times = []int64{ci.params.GenesisBlock.Header.Timestamp.Unix()}
+	w.bits = []uint32{ci.params.GenesisBlock.Header.Bits}
 	type cbInfo struct {
 		op  wire.OutPoint
 		val int64
@@ -349,14 +370,19 @@ func buildWorld(id int) (*world, error) {
 			}
 			delete(cbs, h-worldMaturity-1)
 		}
-		ts := worldT0 + worldSpacing*int64(h)
-		blk := buildBlock(ci.params, w.hashes[h-1], h, ts, 0, txs, 0)
+		ts := worldT0 + spacing(id)*int64(h)
+		bits, err := ci.chain.CalcNextRequiredDifficulty(time.Unix(ts, 0))
+		if err != nil {
+			return nil, err
+		}
+		blk := buildBlock(ci.params, w.hashes[h-1], h, ts, 0, txs, 0, bits)
 		_, isOrphan, err := ci.chain.ProcessBlock(blk, blockchain.BFNone)
 		if err != nil || isOrphan {
 			return nil, fmt.Errorf("world block %d: %v orphan=%v", h, err, isOrphan)
 		}
 		w.hashes = append(w.hashes, *blk.Hash())
 		w.times = append(w.times, ts)
+		w.bits = append(w.bits, bits)
 		cbt := blk.Transactions()[0]
 		cbs[h] = cbInfo{wire.OutPoint{Hash: *cbt.Hash(), Index: 0}, cbt.MsgTx().TxOut[0].Value}
 	}
@@ -478,8 +504,8 @@ func (ci *chainInst) reorg(f, k int) error {
 	prev := ci.w.hashes[f]
 	for i := 1; i <= k; i++ {
 		h := int32(f + i)
-		ts := worldT0 + worldSpacing*int64(h) + 7
-		blk := buildBlock(ci.params, prev, h, ts, 1, nil, 0)
+		ts := worldT0 + spacing(ci.w.id)*int64(h) + 7
+		blk := buildBlock(ci.params, prev, h, ts, 1, nil, 0, ci.params.PowLimitBits)
 		_, isOrphan, err := ci.chain.ProcessBlock(blk, blockchain.BFNone)
 		if err != nil || isOrphan {
 			return fmt.Errorf("reorg block %d: %v orphan=%v", h, err, isOrphan)
@@ -494,7 +520,12 @@ func (ci *chainInst) extend(k int) error {
 	for i := 0; i < k; i++ {
 		best := ci.chain.BestSnapshot()
 		h := best.Height + 1
-		blk := buildBlock(ci.params, best.Hash, h, worldT0+worldSpacing*int64(h)+13, 2, nil, 0)
+		ts := worldT0 + spacing(ci.w.id)*int64(h) + 13
+		bits, err := ci.chain.CalcNextRequiredDifficulty(time.Unix(ts, 0))
+		if err != nil {
+			return err
+		}
+		blk := buildBlock(ci.params, best.Hash, h, ts, 2, nil, 0, bits)
 		_, isOrphan, err := ci.chain.ProcessBlock(blk, blockchain.BFNone)
 		if err != nil || isOrphan {
 			return fmt.Errorf("extend block %d: %v orphan=%v", h, err, isOrphan)
